@@ -52,6 +52,9 @@ impl<'a> SendLastStateProofProcess<'a> {
         };
 
         let last_header: VerifiableHeader = self.message.last_header().to_entity().into();
+        return_if_failed!(self
+            .protocol
+            .check_total_difficulty_for_headers(Some(&last_header).into_iter()));
 
         // Update the last state if the response contains a new one.
         if !original_request.is_same_as(&last_header) {
@@ -80,6 +83,9 @@ impl<'a> SendLastStateProofProcess<'a> {
             .map(|header| header.to_entity().into())
             .collect::<Vec<VerifiableHeader>>();
         let last_n_blocks = self.protocol.last_n_blocks() as usize;
+        return_if_failed!(self
+            .protocol
+            .check_total_difficulty_for_headers(headers.iter()));
 
         trace!(
             "peer {}: last_number: {}, last_hash: {:#x}, headers_count: {}, last_n_config: {last_n_blocks}",
